@@ -166,6 +166,23 @@ def prelude_stress(rng, n=150):
 PRELUDE_INPUT = "a\nbc\nd\n\nef\ng\nh\nij\nk\nl\nm\nn\no\np"
 
 
+def operand_family(rng):
+    """multi-operand commands on stacks holding NaN at various depths, then everything left is printed:
+    how many operands a command consumes, what it restores and in which order shows in the output"""
+    prog = []
+    for _ in range(rng.randint(2, 5)):
+        v = rng.choice([1, 2, 3, 5, 0, "nan", "nan"])
+        if v == "nan":
+            prog += [C(0, 1, 0), C(4, 1, 4)]
+        else:
+            prog.append(C(0, 1, v) if v else C(0, 1, 0))
+    for _ in range(rng.randint(1, 2)):
+        prog.append(C(rng.choice([1, 2, 2, 3, 4]), rng.choice([2, 2, 3]), rng.choice([1, 3, 3, 4])))
+    # print what is left: values are small numbers / fractions; as negatives they print as readable text
+    prog += [C(3, 1, 1) for _ in range(6)]
+    return prog
+
+
 def area_pop_family(rng):
     """a stack of small numbers with NaN at random depths (NaN is made by 1/0 above other values), then one
     command with a nested ?/! tree: which branch is taken, and how many values each condition pops, shows
@@ -287,8 +304,10 @@ def gen_cases(rng, n, flavor="mixed"):
             p = retjump_soup(rng, rng.randint(5, 12))
         elif r < 0.94:
             p = fwdjump_family(rng)
-        elif r < 0.96:
+        elif r < 0.955:
             p = area_pop_family(rng)
+        elif r < 0.975:
+            p = operand_family(rng)
         else:
             p = CAT_LOOP if rng.random() < 0.5 else cat_n(rng.randint(1, 6))
             if rng.random() < 0.3:
